@@ -17,6 +17,7 @@ import (
 	"sort"
 	"strconv"
 	"strings"
+	"sync"
 	"time"
 )
 
@@ -427,19 +428,42 @@ func cmdCheck(repo, verif, prop, tier, only string) int {
 		for _, p := range insts {
 			h := &HarnessRun{Name: hs.Fn, Pkg: modulePath + "/" + hs.Pkg, Mode: parseMode(hs.Mode), Params: p, Tier: tier,
 				timeoutMS: hs.TimeoutMS, stepLimit: hs.StepLimit, maxPaths: hs.MaxPaths, noIfConv: hs.NoIfConv, maxConcretize: hs.MaxConcretize}
+			if tier == "thorough" && h.timeoutMS != 0 {
+				h.timeoutMS *= 3
+			}
 			if w := os.Getenv("VERIF_WORKERS"); w != "" {
 				h.workers, _ = strconv.Atoi(w)
 			} else {
-				h.workers = 14
+				h.workers = 8
 			}
 			h.Instance = instanceName(p)
-			eng.Explore(h)
-			r := &h.Result
-			fmt.Printf("  %-34s %-22s paths=%-6d queries=%-6d unsat=%-6d sat=%-4d unk=%-3d solver=%.1fs wall=%.1fs findings=%d %v\n",
-				h.Name, h.Instance, r.Paths, r.Queries, r.Unsat, r.Sat, r.UnknownQ, r.SolverS, r.WallS, len(r.Findings), r.ByStatus)
 			results = append(results, h)
 			specs = append(specs, hs)
 		}
+	}
+	{
+		par := 3
+		if v := os.Getenv("VERIF_PAR"); v != "" {
+			par, _ = strconv.Atoi(v)
+		}
+		sem := make(chan struct{}, par)
+		var wg sync.WaitGroup
+		var pmu sync.Mutex
+		for _, h := range results {
+			wg.Add(1)
+			sem <- struct{}{}
+			go func(h *HarnessRun) {
+				defer wg.Done()
+				defer func() { <-sem }()
+				eng.Explore(h)
+				r := &h.Result
+				pmu.Lock()
+				fmt.Printf("  %-30s %-24s paths=%-6d queries=%-6d unsat=%-6d sat=%-4d unk=%-3d solver=%.1fs wall=%.1fs findings=%d %v\n",
+					h.Name, h.Instance, r.Paths, r.Queries, r.Unsat, r.Sat, r.UnknownQ, r.SolverS, r.WallS, len(r.Findings), r.ByStatus)
+				pmu.Unlock()
+			}(h)
+		}
+		wg.Wait()
 	}
 
 	known := loadKnown(verif)
